@@ -646,3 +646,77 @@ func VH_C07_identity() {
 	g, gok := results[goodId]
 	rt.Assert(gok && g.Status == entity.MergeStatusUpdated, "healthy-identity-still-merged")
 }
+
+// VH_C06_identity: the process dies before the k-th storage call of Identity.Commit (new
+// identity or new versions of a stored one). After the restart the identity is either
+// absent / at its old version chain or at its new one, readable, and committing again
+// completes the step.
+func VH_C06_identity() {
+	vhReset()
+	r := vrepo.New()
+	k := rt.Choose(3)     // committed versions
+	u := 1 + rt.Choose(2) // uncommitted versions
+	var vs []*version
+	if k > 0 {
+		vs = vhChain(r, nil, k, 1)
+	}
+	for j := 0; j < u; j++ {
+		vs = append(vs, vhNewVersion(50+j))
+	}
+	i := &Identity{versions: vs}
+	ref := ""
+	if k > 0 {
+		ref = identityRefPattern + i.Id().String()
+		r.SetRef(ref, vs[k-1].commitHash)
+	}
+	crashAt := rt.Choose(rt.Param("K", 8))
+	r.Mutations = 0
+	r.CrashAfter = crashAt
+	var err error
+	crashed, pv := rt.Try(func() { err = i.Commit(r) })
+	if crashed {
+		if _, isCrash := pv.(vrepo.Crash); !isCrash {
+			rt.Assert(false, "identity-commit-no-panic")
+			return
+		}
+		rt.Cover("crashed")
+	} else {
+		rt.Assert(err == nil, "commit-valid-identity")
+		rt.Cover("completed")
+	}
+	r.Restart()
+	id := vs[0].Id()
+	if ref == "" {
+		ref = identityRefPattern + id.String()
+	}
+	back, rerr := ReadLocal(r, id)
+	if rerr != nil {
+		// only a brand new identity may be absent
+		rt.Assert(k == 0 && crashed, "stored-identity-readable-after-crash")
+		exists, _ := r.RefExist(ref)
+		rt.Assert(!exists, "no-dangling-identity-ref")
+		rt.Cover("absent")
+	} else {
+		n := len(back.versions)
+		rt.Assert(n == k || n == k+u, "old-or-new-chain-never-a-mixture")
+		if !crashed {
+			rt.Assert(n == k+u, "completed-commit-is-stored")
+		}
+		for j := 0; j < n && j < len(vs); j++ {
+			rt.Assert(back.versions[j].Id() == vs[j].Id(), "chain-holds-the-same-versions")
+		}
+	}
+	// repeating the step completes it
+	if crashed {
+		// the same pending versions (a new process would rebuild them from the same user
+		// input; M-PACK identifies a version with its object)
+		for j := k; j < len(vs); j++ {
+			vs[j].commitHash = ""
+		}
+		again := &Identity{versions: vs}
+		rt.Assert(again.Commit(r) == nil, "repeating-the-commit-succeeds")
+		fin, ferr := ReadLocal(r, id)
+		rt.Assert(ferr == nil && len(fin.versions) == k+u, "repeated-commit-reaches-the-new-state")
+	}
+	rt.Observe("k", k)
+}
